@@ -506,4 +506,13 @@ def run(ctx, prog):
                  ('read_all records %s on an end-of-file exit and recovery refuses on it (%s): the first start-up after a torn append succeeds, every later one fails '
                   'because the torn segment is no longer the last listed' % (sorted(fields), bad[0])) if bad else
                  'fields written on end-of-file exits: %s; refusing tests on them: none' % (sorted(fields) or 'none'))
+    # ------------------------------------------------------------------ R11 what a snapshot covers is in it
+    ctx.rule('C01.R11', 'a snapshot covers sequence numbers up to next_wal_seq − 1 and recovery skips them: every number allocated must already be applied in memory when the '
+                        'snapshotter reads (seq, store) — writers hold the snapshot lock (shared) from the allocation to the in-memory apply, the snapshotter holds it '
+                        'exclusively (same analysis as C09.R1 / C09.R2). Otherwise an acknowledged delete comes back, or an acknowledged insert is gone, after the crash')
+    from rules import C09 as _C09
+    from kvstatic.locks import LockModel as _LM11
+    lm11 = _LM11(prog)
+    n11 = _C09.alloc_to_apply(ctx, prog, lm11, 'C01.R11')
+    ctx.floor('C01.R11', 'next_wal_seq.fetch_add sites', n11, 5, 'insert ×2, delete, update_metadata, batch_delete')
     ctx.stat('functions_analysed', len(set(i['key'].split(' | ')[1] for i in ctx.instances)))
